@@ -1,7 +1,12 @@
 use crate::errors::*;
 use indexmap::IndexSet;
 use snafu::OptionExt;
+#[cfg(not(amiquip_verif))]
 use std::collections::hash_map::{Drain, Entry, HashMap};
+#[cfg(amiquip_verif)]
+use amiquip_simrt::collections::HashMap;
+#[cfg(amiquip_verif)]
+use std::collections::hash_map::{Drain, Entry};
 
 pub(crate) struct ChannelSlots<T> {
     slots: HashMap<u16, T>,
